@@ -602,6 +602,32 @@ pub fn replay(ctx: &Ctx, v: &Value) -> Report {
     rep
 }
 
+// ---------------- malformed responses to pending operations ----------------
+
+/// A frame the client cannot make sense of (well-formed envelope or not) arrives while a bind and a
+/// search are pending: every operation future must complete with a value or an error. The workload
+/// is C11's (which judges the driver); here the callers are judged.
+pub fn malformed_results(ctx: &Ctx) -> Report {
+    let n = ctx.n(60_000, 50_000_000);
+    par_cases(ctx, "malformed_results", n, ctx.secs(25, 600), |i, rng, rep| {
+        let (obs, input, label, _target) = crate::lanes::c11::observe_driver_case(rng, None);
+        let replay = json!({"lane":"malformed_results","case":i,"input_hex":ber::hex(&input[..input.len().min(600)])});
+        for (who, s) in std::iter::once(("bind", &obs.bind)).chain(obs.stream.iter().map(|s| ("search-stream", s))) {
+            if let Some(p) = s.find("Panic(") {
+                let site = s[p + 6..].trim_end_matches(')');
+                rep.violation(format!("C04:operation-future-panics-on-an-undecodable-response:{}@{}", who, site), format!("frame {} ({}): {} -> {}", ber::hex(&input[..input.len().min(80)]), label, who, s), replay.clone());
+            } else if s.contains("Hung") && obs.driver_panic.is_none() {
+                rep.violation(format!("C04:operation-never-completes-after-an-undecodable-response:{}", who), format!("frame {} ({}): {} -> {}; driver {}", ber::hex(&input[..input.len().min(80)]), label, who, s, obs.driver), replay.clone());
+            }
+        }
+        rep.count(&format!("bind_{}", obs.bind.split('(').next().unwrap_or("?")), 1);
+        if i < 2 {
+            rep.sample(json!({"lane":"malformed_results","case":i,"frame_hex":ber::hex(&input[..input.len().min(80)]),"kind":label,"bind":obs.bind,"stream":obs.stream,"driver":obs.driver}));
+        }
+        rep.case(Some(fnv(&input)));
+    })
+}
+
 // ---------------- real transports (TCP and Unix sockets) ----------------
 
 /// The in-memory transport exercises the driver, but closing is dispatched per transport type.
